@@ -59,4 +59,19 @@ def verifyHashed (t : SigType) (chunks : List Bytes) : Bytes :=
 /-- VerifyDetached before the repair: io.Copy(d, signed) whatever the signature type -/
 def verifyHashedOrig (_t : SigType) (chunks : List Bytes) : Bytes := chunks.flatten
 
+/-! ### non-seekable input (relic sign -f -): signers/pgp.transform reads it into memory, up to a limit -/
+
+def maxStreamClearSignSize : Nat := 10 * 1000 * 1000
+
+/-- `ioutil.ReadAll(io.LimitReader(stream, max))`, then refuse when the limit was hit; otherwise every GetReader is a
+    reader over the bytes read -/
+def pipeTransform (input : Bytes) : Option Bytes :=
+  let contents := input.take maxStreamClearSignSize
+  if contents.length = maxStreamClearSignSize then none else some contents
+
+/-- the same decision from the length alone (what the driver evaluates: no 10 MB list is built) -/
+def pipeTransformLen (n : Nat) : Option Nat :=
+  let c := min n maxStreamClearSignSize
+  if c = maxStreamClearSignSize then none else some c
+
 end Relic.PgpDetached
